@@ -29,6 +29,8 @@ struct State {
     h_done: bool,
     events: Vec<String>,
     p_thread: Option<std::thread::ThreadId>,
+    /// last point P passed in the current poll
+    p_last_point: Option<&'static str>,
 }
 
 struct Coord { st: Mutex<State>, cv: Condvar }
@@ -101,7 +103,7 @@ fn fine(args: &[String]) {
             let me = std::thread::current().id();
             let mut g = coord.st.lock().unwrap();
             let actor = if g.p_thread == Some(me) { 0 } else { 1 };
-            if actor == 0 { g.p_reached_first_point = true }
+            if actor == 0 { g.p_reached_first_point = true; g.p_last_point = Some(id) }
             g.at[actor] = Some(id);
             g.events.push(format!("{}@{id}", if actor == 0 { "P" } else { "H" }));
             coord.cv.notify_all();
@@ -131,6 +133,7 @@ fn fine(args: &[String]) {
                 let r = fut.as_mut().poll(&mut cx);
                 let mut g = coord.st.lock().unwrap();
                 g.p_polling = false;
+                g.p_last_point = None;
                 if r.is_ready() { g.p_returned = true; g.events.push("P:returned".into()); } else { g.events.push("P:pending".into()); }
                 coord.cv.notify_all();
                 if r.is_ready() { return }
@@ -139,8 +142,14 @@ fn fine(args: &[String]) {
     };
     if let Err(e) = coord.wait_until("P thread id", |s| s.p_thread.is_some()) { fail(e) }
 
-    let mut polled_wakes: u64 = 0;       // value of the wake counter when P last started a poll
-    let mut first_poll_pending = true;    // the very first poll needs no wake
+    // A wake for P is pending after: the start (first poll), a wake() call made by the signal handler (observed synchronously
+    // on the counting waker during an H step), a CONN event.  Wakes that tokio's reactor delivers on its own schedule are not
+    // counted separately: they belong to a CONN event, and counting them would make the enabled sets depend on timing.
+    let mut pwake = true;
+    // what the controller knows about the protocol state (needed to say which actors are enabled; what the code really does -
+    // whether `howl` returns - is observed, not inferred): a connection waits in the accept queue; a poll has read the flag as set
+    let mut conn_pending = 0usize;
+    let mut interrupted_seen = false;
     let mut sig_raised = false;
     let mut conns = 0usize;
     let mut clients: Vec<std::net::TcpStream> = vec![];
@@ -151,29 +160,46 @@ fn fine(args: &[String]) {
     let horizon = 80usize;
     let quiescent;
     loop {
-        let (p_at, h_at, p_polling, p_returned, p_first, h_done) = { let g = coord.st.lock().unwrap(); (g.at[0], g.at[1], g.p_polling, g.p_returned, g.p_reached_first_point, g.h_done) };
-        let wake_pending = first_poll_pending || wakes.0.load(Ordering::SeqCst) > polled_wakes;
+        let (p_at, h_at, p_polling, p_returned, p_first, h_done, store_done) = { let g = coord.st.lock().unwrap(); (g.at[0], g.at[1], g.p_polling, g.p_returned, g.p_reached_first_point, g.h_done, g.events.iter().any(|e| e == "H@H1")) };
+        let wake_pending = pwake;
         let mut enabled: Vec<&'static str> = vec![];
-        if !p_returned && (p_at.is_some() || (!p_polling && wake_pending)) { enabled.push("P") }
+        // once a poll has seen the flag, `howl` has left the accept loop and only awaits the wait-group (which re-wakes itself on
+        // every poll until the sessions are gone): P is no longer a participant of the protocol - it is polled to completion
+        // at quiescence, outside the schedule
+        if !p_returned && !interrupted_seen && (p_at.is_some() || (!p_polling && wake_pending)) { enabled.push("P") }
         if h_at.is_some() { enabled.push("H") }
         if !sig_raised && p_first { enabled.push("SIG") }
-        if conns < max_conn && p_first && !p_returned { enabled.push("CONN") }
+        // a client can connect only while the accept loop is alive (after the interrupt was seen the listener is dropped)
+        if conns < max_conn && p_first && !p_returned && !interrupted_seen { enabled.push("CONN") }
         let _ = h_done;
         // canonical order: the actor that ran last comes first if it is still enabled (continuing it is choice 0, a
         // switch away from it is a preemption), then P, H, SIG, CONN
         let last_enabled = enabled.contains(&last_actor);
         if last_enabled { enabled.retain(|a| *a != last_actor); enabled.insert(0, last_actor); }
-        if enabled.is_empty() { quiescent = true; break }
-        if decisions >= horizon { fail(format!("horizon of {horizon} decisions exceeded; trace {:?}", trace)) }
+        if enabled.is_empty() {
+            if interrupted_seen && !p_returned {
+                // wait for the in-flight sessions: poll `howl` until it returns (bounded by real time; a session that never ends is a failure of the harness' clients)
+                let t = Instant::now();
+                loop {
+                    { let mut g = coord.st.lock().unwrap(); if g.p_returned { break } g.p_polling = true; g.p_start = true; coord.cv.notify_all(); }
+                    if let Err(e) = coord.wait_until("the wait-group poll", |s| !s.p_polling) { fail(e) }
+                    if coord.st.lock().unwrap().p_returned { break }
+                    spin_polls += 1;
+                    if t.elapsed() > Duration::from_secs(20) { fail("howl saw the interrupt but did not return within 20 s although every client had closed".into()) }
+                    std::thread::sleep(Duration::from_millis(1));
+                }
+            }
+            quiescent = true; break
+        }
+        if decisions >= horizon { fail(format!("horizon of {horizon} decisions exceeded after {} decisions", trace.len())) }
         // after the interrupt was caught, `howl` awaits the wait-group, which re-wakes itself on every poll: only P is enabled
         // forever until the sessions are gone.  That is waiting made visible, not a scheduling choice.
         let choice = if decisions < prefix.len() {
             let c = prefix[decisions];
-            if c >= enabled.len() { fail(format!("schedule diverged at decision {decisions}: choice {c} but enabled {:?}; trace {:?}", enabled, trace)) }
+            if c >= enabled.len() { fail(format!("schedule diverged at decision {decisions}: choice {c} but enabled {:?}", enabled)) }
             c
         } else { 0 };
-        if enabled == ["P"] && p_at.is_none() && sig_raised { spin_polls += 1; if spin_polls > 2000 { fail("P spins without returning".into()) } std::thread::sleep(Duration::from_millis(1)); }
-        else { trace.push(serde_json::json!({"enabled": enabled, "chosen": choice, "p_at": p_at, "h_at": h_at, "preemption": last_enabled && choice != 0})); decisions += 1; }
+        { trace.push(serde_json::json!({"enabled": enabled, "chosen": choice, "p_at": p_at, "h_at": h_at, "preemption": last_enabled && choice != 0})); decisions += 1; }
         let chosen_actor = enabled[choice];
         last_actor = match chosen_actor { "SIG" => "H", "CONN" => last_actor, a => a };
         match chosen_actor {
@@ -183,18 +209,28 @@ fn fine(args: &[String]) {
                     // wait until P left the point, then until it stands at the next one or the poll is over
                     if let Err(e) = coord.wait_until("P to leave its point", |s| !s.grant[0]) { fail(e) }
                     if let Err(e) = coord.wait_until("P to reach a point or finish the poll", |s| s.at[0].is_some() || !s.p_polling) { fail(e) }
+                    // the step just taken: from P0 it polled accept (a waiting connection is taken, else the flag is read); from P3 it re-read the flag
+                    match p_at {
+                        Some("P0") => { if conn_pending > 0 { conn_pending -= 1 } else if store_done { interrupted_seen = true } }
+                        Some("P3") => { if store_done { interrupted_seen = true } }
+                        _ => {}
+                    }
+                    let now_at = coord.st.lock().unwrap().at[0];
+                    if interrupted_seen && now_at.is_some() { fail(format!("controller inference: the flag was set before P's step from {:?}, yet P went on to {:?}", p_at, now_at)) }
                 } else {
-                    polled_wakes = wakes.0.load(Ordering::SeqCst); first_poll_pending = false;
+                    pwake = false;
                     { let mut g = coord.st.lock().unwrap(); g.p_polling = true; g.p_start = true; coord.cv.notify_all(); }
                     if let Err(e) = coord.wait_until("P to reach a point or finish the poll", |s| s.at[0].is_some() || !s.p_polling) { fail(e) }
                 }
             }
             "H" => {
                 let was = h_at;
+                let wakes_before = wakes.0.load(Ordering::SeqCst);
                 { let mut g = coord.st.lock().unwrap(); g.grant[1] = true; coord.cv.notify_all(); }
                 if let Err(e) = coord.wait_until("H to leave its point", |s| !s.grant[1]) { fail(e) }
                 if was != Some("H3") { if let Err(e) = coord.wait_until("H to reach its next point", |s| s.at[1].is_some()) { fail(e) } }
                 else { std::thread::sleep(Duration::from_millis(2)); }
+                if wakes.0.load(Ordering::SeqCst) > wakes_before { pwake = true }
             }
             "SIG" => {
                 sig_raised = true;
@@ -203,12 +239,10 @@ fn fine(args: &[String]) {
             }
             "CONN" => {
                 conns += 1;
-                let before = wakes.0.load(Ordering::SeqCst);
                 match std::net::TcpStream::connect(("127.0.0.1", port)) { Ok(c) => clients.push(c), Err(e) => fail(format!("connect failed: {e}")) }
-                // the reactor wakes the accept future's waker; give it time, then treat the wake as delivered
-                let t = Instant::now();
-                while wakes.0.load(Ordering::SeqCst) == before && t.elapsed() < Duration::from_millis(300) { std::thread::sleep(Duration::from_millis(1)); }
-                if wakes.0.load(Ordering::SeqCst) == before { wakes.0.fetch_add(1, Ordering::SeqCst); }
+                // the connection is established (it sits in the accept queue); give the reactor a moment, then the wake counts as delivered
+                std::thread::sleep(Duration::from_millis(20));
+                pwake = true; conn_pending += 1;
                 // the client goes away at once: the session it caused ends by itself
                 clients.clear();
             }
